@@ -8,13 +8,24 @@ the last has exactly `chunk` frames, the last 1..chunk, and the generator is con
 logical bound ceil(m/chunk)+2 — a generator that yields more is reported as a violation decided on steps, not time.
 Times are compared only for formats that store them (others synthesise times).  Topology of a partial load must be
 the restriction of the full topology (own fingerprint: atom name/element/residue name/residue+chain grouping/bonds).
-Thorough: exhaustive over n_frames 1..12 x chunk 0..n+2 x stride 1..5 x skip 0..n x 3 atom subsets for iterload."""
+Thorough: exhaustive over n_frames 1..12 x chunk 0..n+2 x stride 1..5 x skip 0..n x 3 atom subsets for iterload.
+
+Round-5 widening (input classes, same oracle): files as other programs write them (LAMMPS dumps with other column sets /
+triclinic bounds / unsorted atoms, extended XYZ with extra columns, AMBER NetCDF with velocities/forces/temp0, HDF5 with all
+optional fields, GROMACS .gro with velocities and 3-number box or without time, RCSB-style PDB with ANISOU/HETATM/altloc/TER,
+big-endian / 64-bit-record / degree-angle DCD, TRR with frames of different sizes, mdcrd with other title and CRLF, Desmond
+clickme.dtr path and .stk lists, TINKER .arc, AMBER restart files, XTC frames so compressible that reading to the end needs
+several buffer chunks), extension aliases (.hdf5 .netcdf .ncdf .crd), and option classes of the entry points: top= given as
+Topology / Trajectory / path string / pathlib.Path (and top= for the self-describing pdb / gro), atom_indices as ndarray
+int64 / list / int32 / non-contiguous view / tuple, file name as pathlib.Path, frame= together with stride= (documented:
+stride ignored), lists with discard_overlapping_frames (overlapping and not)."""
 from __future__ import annotations
 
 import atexit
 import itertools
 import math
 import os
+import pathlib
 import shutil
 import tempfile
 
@@ -28,18 +39,29 @@ NATIVE = ["mdtraj.formats.xtc", "mdtraj.formats.trr", "mdtraj.formats.dcd", "mdt
 RULE = ("case = (format, n_frames, entry point, stride, chunk, skip, atom subset, frame index / file list); quick: seeded "
         "sample; thorough: exhaustive iterload grid n<=12 x chunk 0..n+2 x stride 1..5 x skip 0..n x 3 subsets per format "
         "plus the load/load_frame/list grid; non-trivial = a partial result was compared with the numpy slice of the "
-        "full load; distinct = distinct descriptors")
+        "full load; round-5 streams: the same entry points on 27 further file classes (files of other programs, aliases, read-only and restart formats) and with the option classes of the entry points (top / atom_indices / file name kinds, frame+stride, discard_overlapping_frames); distinct = distinct descriptors")
 WORKERS = {"quick": 8, "thorough": 16}
 BUDGET = {"quick": 90, "thorough": 1500}
 EXHAUSTIVE = {"quick": False, "thorough": True}
 FMTS = ["h5", "xtc", "xtc9", "trr", "dcd", "dcd0", "dcd4", "dcdfix", "trr-double", "trr-vf", "nc", "dtr", "mdcrd", "mdcrd-nobox", "mdcrd20", "mdcrd-nobox10", "xyz", "xyz-foreign", "xyz.gz", "lammpstrj", "gro", "pdb", "pdb.gz"]
+OLD_FMTS = list(FMTS)   # the pre-widening stream keeps drawing from this list, so its cases are unchanged
+# round-5 classes (see module docstring and vlib/gen/files.py); WIDE_EXT maps the class to the real file extension
+WIDE_EXT = files.WIDE_EXT
+WIDE = list(WIDE_EXT)
+FMTS = FMTS + WIDE
+RESTART = ("rst7", "ncrst")   # single-frame formats: loaders take atom_indices only (no stride / frame / chunked reading)
+# capabilities per real extension (files.FORMATS + aliases and read-only formats)
+CAP = dict(files.FORMATS)
+CAP.update({"hdf5": files.FORMATS["h5"], "netcdf": files.FORMATS["nc"], "ncdf": files.FORMATS["nc"], "crd": files.FORMATS["mdcrd"],
+            "stk": files.FORMATS["dtr"], "arc": dict(time=False, cell=True, self_top=True, unit=10.0),
+            "rst7": dict(time=True, cell=True, self_top=False, unit=10.0), "ncrst": dict(time=True, cell=True, self_top=False, unit=10.0)})
 # dcd0 / dcd4: DCD files as other programs write them (stale header count; CHARMM 4-dimensional), see vlib/gen/files.py
 SUBSETS = {0: None, 1: [0, 2, 3], 2: [1], 3: [0, 1, 2, 3, 4, 5]}
 # ai == 4: a seeded random strictly increasing subset of 4..6 atoms (irregular gaps; readers may special-case regular ones)
 # ai == 5: a regular subset (every other atom) — the class a reader may turn into a slice
 
 
-NA_OF = {"xtc9": 6, "mdcrd20": 20, "mdcrd-nobox10": 10}
+NA_OF = {"xtc9": 6, "mdcrd20": 20, "mdcrd-nobox10": 10, "xtc-dense": 600}
 
 
 def subset_for(case):
@@ -67,7 +89,9 @@ GROUPS = {"quick": [dict(name="asan-hazard", flavour="asan", workers=1), dict(na
 
 
 def _hazard(c):
-    return c["fmt"] in ("trr", "trr-double", "trr-vf") and c.get("stride", 1) > 1 and c.get("ai", 0) != 0 and c["op"] in ("iterload", "load", "list")
+    # (load_trr hands stride= to the reader also when frame= is given, so frame+stride on an atom subset is the same class)
+    return c["fmt"] in ("trr", "trr-double", "trr-vf", "trr-mixed") and c.get("ai", 0) != 0 and (
+        c.get("stride", 1) > 1 and c["op"] in ("iterload", "load", "list") or bool(c.get("fs")) and c["op"] == "frame")
 
 
 def _grouped(gen):
@@ -78,7 +102,7 @@ def _grouped(gen):
         else:
             yield c
             # a thin slice of every native-reader case also rides in the sanitizer build
-            if c["fmt"] in ("xtc", "xtc9", "trr", "trr-double", "trr-vf", "dcd", "dcd0", "dcd4", "dcdfix", "dtr") and c["i"] % 6 == 0:
+            if c["fmt"] in ("xtc", "xtc9", "trr", "trr-double", "trr-vf", "dcd", "dcd0", "dcd4", "dcdfix", "dtr", "trr-mixed", "dcd-be", "dcd-rec64", "dcd-deg", "dtr-clickme", "stk", "xtc-dense") and c["i"] % 6 == 0:
                 d = dict(c)
                 d["group"] = "asan"
                 yield d
@@ -101,7 +125,7 @@ def gen_cases(tier, seed):
 def _gen_cases(tier, seed):
     i = 0
     if tier == "thorough":
-        for fmt in FMTS:
+        for fmt in OLD_FMTS:
             for n in range(1, 13):
                 for chunk in range(0, n + 3):
                     for stride in range(1, 6):
@@ -135,11 +159,12 @@ def _gen_cases(tier, seed):
                 for fr in sorted({0, 99, 100, min(101, n - 1), n - 1}):
                     yield dict(i=i, fmt=fmt, n=n, op="frame", frame=fr, ai=i % 6)
                     i += 1
+        yield from _wide_cases(tier, seed, i)
         return
     nq = 12000
     for j in range(nq):
         rng = common.rng_for("C02", seed, j)
-        fmt = FMTS[j % len(FMTS)]
+        fmt = OLD_FMTS[j % len(OLD_FMTS)]
         n = int(rng.choice([1, 2, 3, 5, 7, 10, 12]))
         op = ["iterload", "iterload", "iterload", "load", "frame", "list"][int(rng.integers(6))]
         c = dict(i=j, fmt=fmt, n=n, op=op, ai=int(rng.integers(0, 6)))
@@ -164,6 +189,123 @@ def _gen_cases(tier, seed):
             else:
                 c.update(frame=min(n - 1, int(rng.choice([0, 99, 100, 101, n - 1, int(rng.integers(0, n))]))))
         yield c
+    yield from _wide_cases(tier, seed, nq)
+
+
+def _draw(rng, fmt, n, op, long_=False):
+    """one case descriptor of the same shape as the pre-widening stream"""
+    c = dict(fmt=fmt, n=n, op=op, ai=int(rng.integers(0, 6)))
+    if op == "iterload":
+        if long_:
+            c.update(chunk=int(rng.choice([0, 1, 7, 64, 100, 128, n - 1, n, n + 1])), stride=int(rng.choice([1, 1, 2, 3, 7, 50, 101, n])),
+                     skip=int(rng.choice([0, 0, 1, 99, 100, 101, n - 1, n, int(rng.integers(0, n + 1))])))
+        else:
+            c.update(chunk=int(rng.integers(0, n + 3)), stride=int(rng.choice([1, 1, 2, 3, 4, 5])), skip=int(rng.choice([0, 0, int(rng.integers(0, n + 1))])))
+    elif op == "load":
+        c.update(stride=int(rng.choice([1, 2, 7, 50, 100, 101, n - 1, n, n + 1])) if long_ else int(rng.integers(1, 8)))
+    elif op == "frame":
+        c.update(frame=min(n - 1, int(rng.choice([0, 99, 100, 101, n - 1, int(rng.integers(0, n))]))) if long_ else int(rng.integers(0, n)))
+    else:
+        c.update(k=int(rng.integers(1, 4)), stride=int(rng.choice([1, 2, 3])))
+    return c
+
+
+def _wide_cases(tier, seed, i0):
+    """round-5 classes: (a) the foreign / alias / read-only file classes through every entry point, (b) option classes of the
+    entry points on all formats (how top=, atom_indices= and the file name are passed, frame= with stride=, lists with
+    discard_overlapping_frames)"""
+    i = i0
+    if tier == "thorough":
+        # a grid per new class, thinner than the exhaustive one of the original formats (same decoder classes underneath)
+        for fmt in WIDE:
+            if fmt in RESTART:
+                for ai in range(6):
+                    yield dict(i=i, fmt=fmt, n=1, op="load", stride=1, ai=ai)
+                    i += 1
+                    yield dict(i=i, fmt=fmt, n=1, op="list", k=1 + ai % 3, stride=1, ai=ai % 2)
+                    i += 1
+                continue
+            for n in (1, 2, 3, 5, 7, 10, 12):
+                for chunk in sorted({0, 1, 2, 3, n - 1, n, n + 1} - {-1}):
+                    for stride in (1, 2, 3, 5):
+                        for skip in sorted({0, 1, n // 2, n - 1, n} - {-1}):
+                            yield dict(i=i, fmt=fmt, n=n, op="iterload", chunk=chunk, stride=stride, skip=skip, ai=[0, 1, 4][i % 3])
+                            i += 1
+                for stride in range(1, 8):
+                    yield dict(i=i, fmt=fmt, n=n, op="load", stride=stride, ai=i % 6)
+                    i += 1
+                for fr in range(n):
+                    yield dict(i=i, fmt=fmt, n=n, op="frame", frame=fr, ai=[0, 1, 4, 2, 5][fr % 5])
+                    i += 1
+            for k in (1, 2, 3):
+                for stride in (1, 2):
+                    yield dict(i=i, fmt=fmt, n=5, op="list", k=k, stride=stride, ai=i % 2)
+                    i += 1
+            for n in (101, 230):
+                for chunk in (0, 1, 100, n - 1, n + 1):
+                    for stride in (1, 2, 7, 101):
+                        for skip in (0, 100, n - 1, n):
+                            yield dict(i=i, fmt=fmt, n=n, op="iterload", chunk=chunk, stride=stride, skip=skip, ai=[0, 1, 4][i % 3])
+                            i += 1
+                for stride in (1, 7, 100, n, n + 1):
+                    yield dict(i=i, fmt=fmt, n=n, op="load", stride=stride, ai=i % 6)
+                    i += 1
+                for fr in sorted({0, 100, n - 1}):
+                    yield dict(i=i, fmt=fmt, n=n, op="frame", frame=fr, ai=i % 6)
+                    i += 1
+    nw = {"quick": 5200, "thorough": 12000}[tier]
+    for j in range(nw):
+        rng = common.rng_for("C02wide", seed, j)
+        fmt = WIDE[j % len(WIDE)]
+        if fmt in RESTART:
+            c = dict(fmt=fmt, n=1, op=["load", "load", "list"][int(rng.integers(3))], ai=int(rng.integers(0, 6)), stride=1)
+            if c["op"] == "list":
+                c["k"] = int(rng.integers(1, 4))
+        else:
+            long_ = j % 25 == 24
+            n = int(rng.choice([101, 230, 517])) if long_ else int(rng.choice([1, 2, 3, 5, 7, 10, 12]))
+            op = ["iterload", "iterload", "iterload", "load", "frame", "list"][int(rng.integers(6))]
+            if long_ and op == "list":
+                op = "load"
+            c = _draw(rng, fmt, n, op, long_)
+        c["i"] = i
+        yield c
+        i += 1
+    # (b) option classes, over every format (old and new)
+    no = {"quick": 3600, "thorough": 20000}[tier]
+    allf = [f for f in FMTS if f not in RESTART]
+    for j in range(no):
+        rng = common.rng_for("C02opt", seed, j)
+        fmt = allf[j % len(allf)]
+        long_ = j % 40 == 39
+        n = int(rng.choice([101, 230])) if long_ else int(rng.choice([1, 2, 3, 5, 7, 10, 12]))
+        op = ["iterload", "load", "frame", "list", "list"][int(rng.integers(5))]
+        if long_ and op == "list":
+            op = "iterload"
+        c = _draw(rng, fmt, n, op, long_)
+        c["i"] = i
+        which = int(rng.integers(5))
+        if which == 0 or op == "list" and which == 4:
+            c["tk"] = int(rng.integers(1, 4))       # how the topology is supplied
+        elif which == 1:
+            c["ak"] = int(rng.integers(1, 5))       # container / dtype / contiguity of atom_indices
+            if c["ai"] == 0:
+                c["ai"] = int(rng.integers(1, 6))
+        elif which == 2:
+            c["pk"] = 1                             # file name(s) as pathlib.Path
+        elif which == 3 and op == "frame":
+            c["fs"] = int(rng.choice([2, 3, 7]))    # frame= together with stride= (documented: stride is ignored)
+        else:
+            c["tk"], c["ak"], c["pk"] = int(rng.integers(0, 4)), int(rng.integers(0, 5)), int(rng.integers(0, 2))
+            if c["ak"] and c["ai"] == 0:
+                c["ai"] = int(rng.integers(1, 6))
+        if op == "list":
+            c["discard"] = bool(rng.random() < 0.75)
+            c["overlap"] = bool(rng.random() < 0.7)
+            c["k"] = int(rng.integers(2, 4))
+            c["n"] = int(rng.choice([1, 2, 3, 5, 7]))
+        yield c
+        i += 1
 
 
 def _fp(top):
@@ -190,20 +332,38 @@ def _fp_subset(top, idx):
     return out, b
 
 
+def _stores_time(fmt, ext):
+    return CAP[ext]["time"] and fmt != "gro-notime"   # a .gro title without 't=' carries no time: the loader synthesises one
+
+
+def _ext_of(fmt):
+    return WIDE_EXT.get(fmt) or {"xtc9": "xtc", "dcd0": "dcd", "dcd4": "dcd", "dcdfix": "dcd", "trr-double": "trr", "trr-vf": "trr", "mdcrd-nobox": "mdcrd",
+                                 "mdcrd20": "mdcrd", "mdcrd-nobox10": "mdcrd", "xyz-foreign": "xyz"}.get(fmt, fmt)
+
+
+def _write_wide(fmt, path, t, n, na, f0):
+    """produce the round-5 file classes (vlib/gen/files.py); returns the path md.load is to be given"""
+    return files.write_wide_class(fmt, path, t, n, na)
+
+
 def _file_for(fmt, n, f0=0):
     """(path, ext, top, full trajectory loaded by md.load, usable?)"""
     import mdtraj as md
     key = (fmt, n, f0)
     if key in _CACHE:
         return _CACHE[key]
-    ext = {"xtc9": "xtc", "dcd0": "dcd", "dcd4": "dcd", "dcdfix": "dcd", "trr-double": "trr", "trr-vf": "trr", "mdcrd-nobox": "mdcrd", "mdcrd20": "mdcrd", "mdcrd-nobox10": "mdcrd",
-           "xyz-foreign": "xyz"}.get(fmt, fmt)
+    ext = _ext_of(fmt)
     # mdcrd lines hold ten numbers: with 10 / 20 atoms the last coordinate line of every frame is full
     na = NA_OF.get(fmt, 12)
-    cell = "ortho" if files.FORMATS[ext]["cell"] and fmt not in ("dcd4", "dcdfix", "mdcrd-nobox", "mdcrd-nobox10") else None
-    t = files.ident_traj(n, na, cell=cell, f0=f0)
+    cell = "ortho" if CAP[ext]["cell"] and fmt not in ("dcd4", "dcdfix", "mdcrd-nobox", "mdcrd-nobox10", "gro-notime", "pdb-foreign.gz", "arc-nobox") else None
+    if fmt == "dcd-deg":
+        cell = "tric"
+    t = files.ident_traj_dense(n, cell=cell, f0=f0) if fmt == "xtc-dense" else files.ident_traj(n, na, cell=cell, f0=f0)
     path = os.path.join(_TMP, f"f_{fmt}_{n}_{f0}.{ext}")
-    t.save(path)
+    if fmt in WIDE_EXT:
+        path = _write_wide(fmt, path, t, n, na, f0)
+    else:
+        t.save(path)
     if fmt == "xyz-foreign":
         files.xyz_make_foreign(path)
     if fmt == "dcd0":
@@ -216,17 +376,22 @@ def _file_for(fmt, n, f0=0):
         files.dcd_make_fixed(path + ".all", path, na, n)
     elif fmt in ("trr-double", "trr-vf"):
         files.trr_write_foreign(path, t.xyz, t.unitcell_vectors, t.time, double=(fmt == "trr-double"), velocities=True, forces=True)
-    kw = files.load_kwargs(ext, t.topology)
-    full = md.load(path, **kw)
+    kw = {} if CAP[ext]["self_top"] else {"top": t.topology}
+    try:
+        full = md.load(path, **kw)
+    except OSError:
+        if ext != "hdf5":
+            raise
+        full = md.load_hdf5(path)   # md.load refuses the registered alias (reported by the cases); the format's own loader is the reference
     f, a = files.identify(full.xyz)
-    good = (full.n_frames == n and np.array_equal(f[:, 0], (np.arange(n) + f0) % 40) and np.array_equal(a[0], np.arange(na)))
+    good = (full.n_frames == n and np.array_equal(f[:, 0], (np.arange(n) + f0) % 40) and (np.array_equal(a[0][:12], np.arange(12)) if fmt == "xtc-dense" else np.array_equal(a[0], np.arange(na))))
     _CACHE[key] = (path, ext, t.topology, full, good, kw)
-    if len(_CACHE) > 400:
+    if len(_CACHE) > 1500:
         _CACHE.pop(next(iter(_CACHE)))
     return _CACHE[key]
 
 
-def _cmp_fields(ctx, monitor, key, got, full, fsel, idx, ext, what):
+def _cmp_fields(ctx, monitor, key, got, full, fsel, idx, ext, what, ref_top=None, no_time=False, check_top=True):
     """bit-for-bit comparison of a partial result with the numpy slice `fsel` (frame index array) / atom subset idx.
     The key gets a suffix naming WHAT differs (frames / atoms / values / time / cell / topology)."""
     exp_xyz = full.xyz[fsel] if idx is None else full.xyz[fsel][:, idx]
@@ -246,7 +411,7 @@ def _cmp_fields(ctx, monitor, key, got, full, fsel, idx, ext, what):
             suffix = "wrong-values"
         problems.append(f"xyz shape {got.xyz.shape} expected {exp_xyz.shape}; frames identify as {fr if fr is None else fr[:20]}, expected {exp_fr[:20]}")
     if not problems:
-        if files.FORMATS[ext]["time"]:
+        if CAP[ext]["time"] and not no_time:
             if not np.array_equal(got.time, full.time[fsel]):
                 suffix = "time"
                 problems.append(f"time {got.time.tolist()[:8]} expected {full.time[fsel].tolist()[:8]}")
@@ -263,7 +428,7 @@ def _cmp_fields(ctx, monitor, key, got, full, fsel, idx, ext, what):
         elif got.unitcell_lengths is not None:
             suffix = suffix or "cell"
             problems.append("partial load has a unit cell, full load has none")
-        if _fp(got.topology) != _fp_subset(full.topology, idx):
+        if check_top and _fp(got.topology) != _fp_subset(ref_top if ref_top is not None else full.topology, idx):
             suffix = suffix or "topology"
             problems.append("topology is not the restriction of the full topology to atom_indices")
     if problems:
@@ -301,65 +466,204 @@ def run_case(case, ctx):
     _run_case(case, ctx)
 
 
+_TOPFILES = {}
+OPTKEYS = ("tk", "ak", "pk", "fs")
+OPTNAMES = {"tk": {1: "top=Trajectory", 2: "top=path-string", 3: "top=pathlib.Path"}, "ak": {1: "atom_indices=list", 2: "atom_indices=int32", 3: "atom_indices=non-contiguous", 4: "atom_indices=tuple"},
+            "pk": {1: "filename=pathlib.Path"}, "fs": {2: "frame+stride", 3: "frame+stride", 7: "frame+stride"}}
+
+
+def _top_pdb(na):
+    """a PDB file holding the topology of the na-atom test system (for top=<path>), and the topology mdtraj reads from it"""
+    import mdtraj as md
+    if na not in _TOPFILES:
+        q = os.path.join(_TMP, f"Topology_{na}.pdb")
+        files.ident_traj(1, na, cell=None).save(q)
+        _TOPFILES[na] = (q, md.load(q).topology)
+    return _TOPFILES[na]
+
+
+def _top_kw(case, ext, na, ctx):
+    """keyword `top` in the form the case asks for; returns (kwargs, topology the result must be a restriction of or None = the
+    full load's)"""
+    import mdtraj as md
+    tk = case.get("tk", 0)
+    if CAP[ext]["self_top"]:
+        if tk and ext in ("pdb", "pdb.gz", "gro") and case["fmt"] not in ("pdb-foreign", "pdb-foreign.gz"):
+            # load_pdb / load_gro document top=<Topology>: "the topology won't be parsed from the file"
+            ctx.observe("top_kind", f"{ext}: top=<Topology> for a self-describing format")
+            return {"top": files.ident_top(na)}, files.ident_top(na)
+        return {}, None
+    if tk == 0:
+        # a fresh Topology object per case: mdtraj must not be able to carry state from one call into the next
+        return {"top": files.ident_top(na)}, None
+    if tk == 1:
+        ctx.observe("top_kind", "Trajectory")
+        return {"top": md.Trajectory(np.zeros((1, na, 3), np.float32), files.ident_top(na))}, None
+    q, qtop = _top_pdb(na)
+    ctx.observe("top_kind", "path string" if tk == 2 else "pathlib.Path")
+    return {"top": q if tk == 2 else pathlib.Path(q)}, qtop
+
+
+def _ai_kw(case, idx, ctx):
+    if idx is None:
+        return {}
+    ak = case.get("ak", 0)
+    if ak == 0:
+        return {"atom_indices": np.array(idx)}
+    ctx.observe("atom_indices_kind", {1: "list", 2: "int32 array", 3: "non-contiguous view", 4: "tuple"}[ak])
+    if ak == 1:
+        return {"atom_indices": list(idx)}
+    if ak == 2:
+        return {"atom_indices": np.array(idx, dtype=np.int32)}
+    if ak == 3:
+        big = np.full(2 * len(idx), -7, dtype=np.int64)
+        big[::2] = idx
+        return {"atom_indices": big[::2]}
+    return {"atom_indices": tuple(idx)}
+
+
 def _run_case(case, ctx):
     import mdtraj as md
     fmt, n = case["fmt"], case["n"]
     path, ext, top, full, good, kw = _file_for(fmt, n)
-    if kw:
-        # a fresh Topology object per case: mdtraj must not be able to carry state from one call into the next
-        kw = {"top": files.ident_top(top.n_atoms)}
+    na = top.n_atoms
     if not good:
         ctx.skip("reference", f"{fmt}: md.load of the whole file does not identify frames 0..n-1 (C01's subject)")
         return
+    kw, ref_top = _top_kw(case, ext, na, ctx)
     idx = subset_for(case)
-    aik = {} if idx is None else {"atom_indices": np.array(idx)}
+    aik = _ai_kw(case, idx, ctx)
+    P = (lambda q: pathlib.Path(q)) if case.get("pk") else (lambda q: q)
+    if case.get("pk"):
+        ctx.observe("filename_kind", "pathlib.Path")
     ctx.observe("format", fmt)
     ctx.observe("op", case["op"])
     op = case["op"]
+    # Option classes (how top / atom_indices / the file name are passed) enter a key only when the plain call conforms on the
+    # same descriptor: otherwise the discrepancy is the generic mechanism and keeps its generic key.
+    optag = ""
+    if any(case.get(k) for k in OPTKEYS):
+        from vlib.ctx import Ctx
+        shadow = Ctx(ctx.prop, case)
+        try:
+            _run_case({k: v for k, v in case.items() if k not in OPTKEYS}, shadow)
+        except Exception:
+            shadow.violations.append(dict(key="raised"))
+        if not shadow.violations:
+            optag = "".join(f",{OPTNAMES[k][case[k]]}" for k in OPTKEYS if case.get(k))
+    cmpkw = dict(no_time=not _stores_time(fmt, ext), check_top=not (CAP[ext]["self_top"] and case.get("tk")))
+    if CAP[ext]["self_top"] and case.get("tk"):
+        ctx.skip("topology", "top= given for a self-describing file: which of the two equivalent topologies the result carries is not specified")
+    if fmt in ("arc", "arc-nobox"):
+        ctx.observe("arc_box_line", fmt == "arc")
+
+    def known_mechanism(e, what):
+        """exceptions whose mechanism is identified: one key each, whatever the entry point"""
+        name, msg = type(e).__name__, str(e)
+        key = None
+        if ext == "arc" and name == "_EOF":
+            key = "arc:stride>1:frame-skipping-loop-lets-its-EOF-signal-escape"
+        elif ext == "arc" and name == "AttributeError" and "subset" in msg:
+            key = "arc:atom_indices:read_as_traj-subsets-the-topology-before-the-first-frame-built-it"
+        elif ext == "arc" and name == "UnboundLocalError":
+            key = "arc:read_as_traj:empty-read-references-unset-topology(every-iterload-ends-with-it)"
+        elif ext == "trr" and name == "IndexError" and "Out of bounds on buffer access" in msg:
+            key = "trr:frames-of-different-sizes:offset-table-of-<=4-entries-never-grows:IndexError"
+        elif ext == "hdf5" and name == "OSError" and "format is not supported" in msg:
+            key = "hdf5:md.load:extension-registered-for-loading-but-refused-by-_parse_topology"
+        elif case.get("pk") and name == "TypeError" and "expected bytes" in msg:
+            key = "iterload:filename-as-pathlib.Path:TypeError-in-compiled-file-classes"
+        if key:
+            ctx.violation("raises", key, f"{what} raised {name}: {msg[:200]} (file of {n} frames)")
+        return bool(key)
+
     if op == "load":
         s = case["stride"]
         ctx.observe("stride", s)
-        got = md.load(path, stride=s, **aik, **kw)
-        _cmp_fields(ctx, "load.stride+atoms", f"{fmt}:load[{_opts(case)}]:differs", got, full, np.arange(n)[::s], idx, ext,
-                    f"md.load({fmt}, stride={s}, atom_indices={idx})")
+        skw = {} if fmt in RESTART else {"stride": s}
+        try:
+            got = md.load(P(path), **skw, **aik, **kw)
+        except Exception as e:
+            if known_mechanism(e, f"md.load({fmt}, stride={s}, atom_indices={idx})"):
+                return
+            ctx.violation("load.raises", f"{fmt}:load[{_opts(case)}{optag}]:raises:{type(e).__name__}", f"md.load({fmt}, stride={s}, atom_indices={idx}{optag}) raised {type(e).__name__}: {e}")
+            return
+        _cmp_fields(ctx, "load.stride+atoms", f"{fmt}:load[{_opts(case)}{optag}]:differs", got, full, np.arange(n)[::s], idx, ext,
+                    f"md.load({fmt}, stride={s}, atom_indices={idx}{optag})", ref_top=ref_top, **cmpkw)
     elif op == "frame":
         fr = case["frame"]
         try:
-            got = md.load_frame(path, fr, **aik, **kw)
+            got = md.load_frame(P(path), fr, **aik, **kw)
         except NotImplementedError:
             ctx.skip("load_frame", f"{fmt}: single-frame loading not offered (NotImplementedError)")
             return
-        if fmt == "dtr" and got.n_frames == n - fr and n - fr > 1:
-            ctx.violation("load_frame", "dtr:read_as_traj-ignores-n_frames", f"md.load_frame(dtr, {fr}) returned the {got.n_frames} remaining frames instead of 1")
+        except Exception as e:
+            if known_mechanism(e, f"md.load_frame({fmt}, {fr}, atom_indices={idx})"):
+                return
+            raise
+        if ext in ("dtr", "stk") and got.n_frames == n - fr and n - fr > 1:
+            ctx.violation("load_frame", "dtr:read_as_traj-ignores-n_frames", f"md.load_frame({fmt}, {fr}) returned the {got.n_frames} remaining frames instead of 1")
             return
-        ok1 = _cmp_fields(ctx, "load_frame", f"{fmt}:load_frame[{_opts(case)}]:differs", got, full, np.array([fr]), idx, ext,
-                          f"md.load_frame({fmt}, {fr}, atom_indices={idx})")
-        got = md.load(path, frame=fr, **aik, **kw)
-        _cmp_fields(ctx, "load_frame", f"{fmt}:load(frame=)[{_opts(case)}]:differs", got, full, np.array([fr]), idx, ext,
-                    f"md.load({fmt}, frame={fr}, atom_indices={idx})")
+        ok1 = _cmp_fields(ctx, "load_frame", f"{fmt}:load_frame[{_opts(case)}{optag}]:differs", got, full, np.array([fr]), idx, ext,
+                          f"md.load_frame({fmt}, {fr}, atom_indices={idx}{optag})", ref_top=ref_top, **cmpkw)
+        fs = case.get("fs")
+        fskw = {"stride": fs} if fs else {}
+        if fs:
+            ctx.observe("frame_with_stride", fs)
+        try:
+            got = md.load(P(path), frame=fr, **fskw, **aik, **kw)
+        except Exception as e:
+            if known_mechanism(e, f"md.load({fmt}, frame={fr}, atom_indices={idx})"):
+                return
+            raise
+        _cmp_fields(ctx, "load_frame", f"{fmt}:load(frame=)[{_opts(case)}{optag}]:differs", got, full, np.array([fr]), idx, ext,
+                    f"md.load({fmt}, frame={fr}, atom_indices={idx}{optag}{', stride=%d' % fs if fs else ''})", ref_top=ref_top, **cmpkw)
     elif op == "list":
         k, s = case["k"], case["stride"]
-        parts = [_file_for(fmt, n, f0=7 * j) for j in range(k)]
+        overlap, discard = case.get("overlap", False), case.get("discard")
+        step = max(n - 1, 0) if overlap else 7
+        parts = [_file_for(fmt, n, f0=step * j) for j in range(k)]
         if not all(p[4] for p in parts):
             ctx.skip("reference", f"{fmt}: reference load not usable")
             return
-        paths = [p[0] for p in parts]
-        got = md.load(paths, stride=s, **aik, **kw)
-        exp_xyz = np.concatenate([p[3].xyz[::s] if idx is None else p[3].xyz[::s][:, idx] for p in parts])
+        paths = [P(p[0]) for p in parts]
+        skw = {} if fmt in RESTART else {"stride": s}
+        dkw = {} if discard is None else {"discard_overlapping_frames": discard}
+        if discard is not None:
+            ctx.observe("list_discard_overlapping", f"discard={discard},files-overlap={overlap}")
+        try:
+            got = md.load(paths, **skw, **dkw, **aik, **kw)
+        except Exception as e:
+            if known_mechanism(e, f"md.load(list of {k} {fmt} files, stride={s}, atoms={idx})"):
+                return
+            ctx.violation("load.raises", f"{fmt}:load(list)[{_opts(case)}{optag}]:raises:{type(e).__name__}", f"md.load(list of {k} {fmt} files, stride={s}, atoms={idx}{optag}, {dkw}) raised {type(e).__name__}: {e}")
+            return
+        # per-file expectation, then the documented joining rule: with discard_overlapping_frames the last frame of a file is
+        # dropped when every atom of it lies within 2e-3 nm of the first frame of the next file (Trajectory.join)
+        keep = [np.arange(n)[::s] for _ in parts]
+        if discard:
+            for j in range(k - 1):
+                if len(keep[j]) and len(keep[j + 1]):
+                    x0, x1 = parts[j][3].xyz[keep[j][-1]].astype(np.float64), parts[j + 1][3].xyz[keep[j + 1][0]].astype(np.float64)
+                    d = np.abs(x1 - x0).max() if idx is None else np.abs(x1[idx] - x0[idx]).max()   # compared on the atoms loaded
+                    if d < 2e-3:
+                        keep[j] = keep[j][:-1]
+                        ctx.observe("list_overlap_dropped", True)
+        exp_xyz = np.concatenate([p[3].xyz[kp] if idx is None else p[3].xyz[kp][:, idx] for p, kp in zip(parts, keep)])
         prob = []
         if got.xyz.shape != exp_xyz.shape or not np.array_equal(got.xyz, exp_xyz):
             prob.append(f"xyz differs from the concatenation of the individual loads (shape {got.xyz.shape} vs {exp_xyz.shape})")
-        if files.FORMATS[ext]["time"]:
-            et = np.concatenate([p[3].time[::s] for p in parts])
+        if _stores_time(fmt, ext):
+            et = np.concatenate([p[3].time[kp] for p, kp in zip(parts, keep)])
             if got.time.shape != et.shape or not np.array_equal(got.time, et):
                 prob.append("time differs")
         if full.unitcell_lengths is not None:
-            el = np.concatenate([p[3].unitcell_lengths[::s] for p in parts])
-            if got.unitcell_lengths is None or not np.array_equal(got.unitcell_lengths, el):
+            el = np.concatenate([p[3].unitcell_lengths[kp] for p, kp in zip(parts, keep)])
+            if got.unitcell_lengths is None or got.unitcell_lengths.shape != el.shape or not np.array_equal(got.unitcell_lengths, el):
                 prob.append("unit cell differs / dropped")
-        if not prob and _fp(got.topology) != _fp_subset(full.topology, idx):
+        if not prob and cmpkw["check_top"] and _fp(got.topology) != _fp_subset(ref_top if ref_top is not None else full.topology, idx):
             prob.append("topology is not the restricted topology")
-        if kw and idx is not None:
+        if kw and idx is not None and hasattr(kw["top"], "subset"):
             # the caller's topology object must still behave after the call (history: list load, then any other load)
             try:
                 n1 = kw["top"].subset([0]).n_atoms
@@ -369,7 +673,8 @@ def _run_case(case, ctx):
             except Exception as e:
                 ctx.violation("load.list.top-intact", "load(list,top=Topology,atom_indices):replaces-subset-method-of-callers-topology", f"caller's topology unusable after list load: {e!r}")
         if prob:
-            ctx.violation("load.list", f"{fmt}:load(list)[{_opts(case)}]:differs-from-join", f"md.load(list of {k} {fmt} files, stride={s}, atoms={idx}): " + "; ".join(prob))
+            dtag = "" if discard is None else f",discard={discard},overlap={overlap}"
+            ctx.violation("load.list", f"{fmt}:load(list)[{_opts(case)}{optag}{dtag}]:differs-from-join", f"md.load(list of {k} {fmt} files, stride={s}, atoms={idx}{optag}{dtag}): " + "; ".join(prob))
         else:
             ctx.ok("load.list")
     elif op == "iterload":
@@ -380,20 +685,25 @@ def _run_case(case, ctx):
         m = len(fsel)
         bound = (1 if chunk == 0 else math.ceil(m / chunk)) + 2
         # same reader: the 9-atom threshold only changes the frame encoding, precision / extra blocks only the frame size
-        kf = {"xtc9": "xtc", "trr-double": "trr", "trr-vf": "trr"}.get(fmt, fmt)
+        kf = {"xtc9": "xtc", "trr-double": "trr", "trr-vf": "trr", "trr-mixed": "trr", "xtc-dense": "xtc"}.get(fmt, fmt)
         tag = f"{kf}:iterload(chunk=0)" if chunk == 0 else f"{kf}:iterload"
-        what = f"md.iterload({fmt}, n={n}, chunk={chunk}, stride={s}, skip={skip}, atom_indices={idx})"
+        what = f"md.iterload({fmt}, n={n}, chunk={chunk}, stride={s}, skip={skip}, atom_indices={idx}{optag})"
         try:
-            gen = md.iterload(path, chunk=chunk, stride=s, skip=skip, **aik, **kw)
+            gen = md.iterload(P(path), chunk=chunk, stride=s, skip=skip, **aik, **kw)
             chunks = list(itertools.islice(gen, bound + 1))
         except NotImplementedError:
             ctx.skip("iterload", f"{fmt}: iterload with {'skip' if skip else 'these options'} not offered (NotImplementedError)")
             return
         except Exception as e:
+            if known_mechanism(e, what):
+                return
+            if ext == "stk" and isinstance(e, OSError) and "no loader" in str(e):
+                ctx.skip("iterload", "stk: chunked reading not offered (no file class is registered for .stk; chunk=0 goes through md.load)")
+                return
             o = "skip=n" if skip == n else _opts(case)
-            ctx.violation("iterload.raises", f"{tag}[{o}]:raises:{type(e).__name__}", f"{what} raised {type(e).__name__}: {e}")
+            ctx.violation("iterload.raises", f"{tag}[{o}{optag}]:raises:{type(e).__name__}", f"{what} raised {type(e).__name__}: {e}")
             return
-        if fmt == "dtr" and chunk > 0:
+        if ext in ("dtr", "stk") and chunk > 0:
             # model of the known DTR behaviour (dtr.pyx read_as_traj drops n_frames; read() advances the position by the
             # number of frames returned): if the observed chunks are exactly what that predicts, it is that one mechanism
             pred, pos = [], skip
@@ -427,11 +737,11 @@ def _run_case(case, ctx):
             return
         cat = chunks[0] if len(chunks) == 1 else md.join(chunks, check_topology=False) if chunks else None
         if cat is None:
-            ctx.violation("iterload.concat", f"{tag}[{_opts(case)}]:no-chunks", f"{what} yielded nothing, expected {m} frames")
+            ctx.violation("iterload.concat", f"{tag}[{_opts(case)}{optag}]:no-chunks", f"{what} yielded nothing, expected {m} frames")
             return
-        good_cat = _cmp_fields(ctx, "iterload.concat", f"{tag}[{_opts(case)}]:concatenation", cat, full, fsel, idx, ext, what)
+        good_cat = _cmp_fields(ctx, "iterload.concat", f"{tag}[{_opts(case)}{optag}]:concatenation", cat, full, fsel, idx, ext, what, ref_top=ref_top, **cmpkw)
         if good_cat:
             if ok_sizes:
                 ctx.ok("iterload.chunk-sizes")
             else:
-                ctx.violation("iterload.chunk-sizes", f"{tag}[{_opts(case)}]:chunk-sizes", f"{what}: chunk sizes {sizes}, expected all {chunk} (last 1..{chunk}) for {m} frames")
+                ctx.violation("iterload.chunk-sizes", f"{tag}[{_opts(case)}{optag}]:chunk-sizes", f"{what}: chunk sizes {sizes}, expected all {chunk} (last 1..{chunk}) for {m} frames")
